@@ -449,3 +449,8 @@ def spec_inflate_len_ok(stream, limit):
 def crypto_events(out, kind):
     """Arguments of every primitive call of the given kind made during the call (symbolic evaluator only)."""
     return []
+
+
+def spec_hash(name, data):
+    import hashlib as _h
+    return _h.new(name, data).digest()
